@@ -2015,3 +2015,488 @@ func TestGovcReplay(t *testing.T) {
 		},
 	})
 }
+
+func init() {
+	harnesses = append(harnesses, &harness{
+		name:      "decode-error reply replay (OnDecodeError on a fresh downstream with a recording response sender)",
+		modelFree: true,
+		match: func(o *Obligation) bool {
+			return strings.HasSuffix(o.Func, "proxy.(*downStream).OnDecodeError")
+		},
+		run: func(eng *Engine, o *Obligation) *ReplayOutcome {
+			src := `package proxy
+
+import (
+	"context"
+	"fmt"
+	"sync/atomic"
+	"testing"
+	"time"
+
+	"mosn.io/api"
+	v2 "mosn.io/mosn/pkg/config/v2"
+	"mosn.io/mosn/pkg/network"
+	"mosn.io/mosn/pkg/protocol"
+	_ "mosn.io/mosn/pkg/router"
+	"mosn.io/mosn/pkg/types"
+	_ "mosn.io/mosn/pkg/upstream/cluster"
+	"mosn.io/pkg/variable"
+)
+
+// ---- fakes (all names prefixed with zzDemo to avoid clashes) ----
+
+type zzDemoRetryPolicy struct{}
+
+func (zzDemoRetryPolicy) RetryOn() bool                  { return false } // default policy
+func (zzDemoRetryPolicy) TryTimeout() time.Duration      { return 0 }     // no per-try timeout (default)
+func (zzDemoRetryPolicy) NumRetries() uint32             { return 12 }
+func (zzDemoRetryPolicy) RetryableStatusCodes() []uint32 { return nil }
+
+type zzDemoPolicy struct{ api.Policy }
+
+func (zzDemoPolicy) RetryPolicy() api.RetryPolicy { return zzDemoRetryPolicy{} }
+
+type zzDemoRouteRule struct{ api.RouteRule }
+
+func (zzDemoRouteRule) ClusterName(context.Context) string { return "zz_demo" }
+func (zzDemoRouteRule) UpstreamProtocol() string           { return "" }
+func (zzDemoRouteRule) GlobalTimeout() time.Duration       { return 300 * time.Millisecond }
+func (zzDemoRouteRule) Policy() api.Policy                 { return zzDemoPolicy{} }
+func (zzDemoRouteRule) FinalizeRequestHeaders(context.Context, api.HeaderMap, api.RequestInfo) {
+}
+func (zzDemoRouteRule) FinalizeResponseHeaders(context.Context, api.HeaderMap, api.RequestInfo) {
+}
+
+// upstream stream that never produces any event by itself
+type zzDemoStream struct{ resets int32 }
+
+func (s *zzDemoStream) ID() uint64                                   { return 1 }
+func (s *zzDemoStream) AddEventListener(types.StreamEventListener)    {}
+func (s *zzDemoStream) RemoveEventListener(types.StreamEventListener) {}
+func (s *zzDemoStream) ResetStream(types.StreamResetReason)           { atomic.AddInt32(&s.resets, 1) }
+func (s *zzDemoStream) DestroyStream()                                {}
+
+// sender used both as the (black hole) upstream request sender and as the downstream response sender
+type zzDemoSender struct {
+	stream      zzDemoStream
+	headersSent int32
+	dataSent    int32
+	lastHeaders atomic.Value
+}
+
+func (s *zzDemoSender) AppendHeaders(_ context.Context, h api.HeaderMap, _ bool) error {
+	atomic.AddInt32(&s.headersSent, 1)
+	return nil
+}
+func (s *zzDemoSender) AppendData(context.Context, types.IoBuffer, bool) error {
+	atomic.AddInt32(&s.dataSent, 1)
+	return nil
+}
+func (s *zzDemoSender) AppendTrailers(context.Context, api.HeaderMap) error { return nil }
+func (s *zzDemoSender) GetStream() types.Stream                              { return &s.stream }
+
+// connection pool: either refuses (connection failure) or hands out a stream to a black hole
+type zzDemoPool struct {
+	types.ConnectionPool
+	host     types.Host
+	fail     bool
+	upstream *zzDemoSender
+	streams  int32
+}
+
+func (p *zzDemoPool) Host() types.Host { return p.host }
+func (p *zzDemoPool) NewStream(context.Context, types.StreamReceiveListener) (types.Host, types.StreamSender, types.PoolFailureReason) {
+	atomic.AddInt32(&p.streams, 1)
+	if p.fail {
+		return p.host, nil, types.ConnectionFailure
+	}
+	return p.host, p.upstream, ""
+}
+
+type zzDemoClusterManager struct {
+	types.ClusterManager
+	pool *zzDemoPool
+}
+
+func (m *zzDemoClusterManager) ConnPoolForCluster(types.LoadBalancerContext, types.ClusterSnapshot, api.ProtocolName) (types.ConnectionPool, types.Host) {
+	return m.pool, m.pool.host
+}
+
+
+type zzDemoRoute struct{ api.Route }
+
+func (zzDemoRoute) RouteRule() api.RouteRule                   { return &zzDemoRouteRule{} }
+func (zzDemoRoute) DirectResponseRule() api.DirectResponseRule { return nil }
+func (zzDemoRoute) RedirectRule() api.RedirectRule             { return nil }
+
+type zzDemoSnapshot struct {
+	types.ClusterSnapshot
+	info types.ClusterInfo
+}
+
+func (s *zzDemoSnapshot) ClusterInfo() types.ClusterInfo { return s.info }
+
+type zzDemoHandler struct{ snap types.ClusterSnapshot }
+
+func (h *zzDemoHandler) IsAvailable(context.Context, types.ClusterManager) (types.ClusterSnapshot, types.HandlerStatus) {
+	return h.snap, types.HandlerAvailable
+}
+func (h *zzDemoHandler) Route() api.Route { return zzDemoRoute{} }
+
+type zzDemoRouters struct{ types.Routers }
+type zzDemoRouterWrapper struct{ types.RouterWrapper }
+
+func (zzDemoRouterWrapper) GetRouters() types.Routers { return zzDemoRouters{} }
+
+type zzDemoServerConn struct{ types.ServerStreamConnection }
+
+func (zzDemoServerConn) EnableWorkerPool() bool      { return false } // the request is served on the calling goroutine
+func (zzDemoServerConn) Protocol() api.ProtocolName { return "Http1" }
+
+// The failed obligation says: a decode error reported for a request (the stream layer hands the proxy the partly
+// decoded request and the error) stores a local reply but never writes it: nothing runs the send phases for a stream
+// that has no worker. Replay: OnDecodeError on a fresh downstream with a recording response sender.
+func TestGovcReplay(t *testing.T) {
+	ctx := variable.NewVariableContext(context.Background())
+	downstreamSender := &zzDemoSender{}
+	s := &downStream{
+		ID:             1,
+		context:        ctx,
+		responseSender: downstreamSender,
+		requestInfo:    &network.RequestInfo{},
+		notify:         make(chan struct{}, 1),
+		proxy: &proxy{
+			config:           &v2.Proxy{DownstreamProtocol: "Http1", UpstreamProtocol: "Http1"},
+			routersWrapper:   zzDemoRouterWrapper{},
+			serverStreamConn: zzDemoServerConn{},
+			stats:            globalStats,
+			listenerStats:    newListenerStats("zz_demo"),
+		},
+	}
+	s.initStreamFilterChain()
+	s.OnDecodeError(ctx, types.ErrCodecException, protocol.CommonHeader{})
+	time.Sleep(200 * time.Millisecond)
+	replies := atomic.LoadInt32(&downstreamSender.headersSent)
+	cleaned := atomic.LoadUint32(&s.downstreamCleaned)
+	if replies != 1 || cleaned != 1 {
+		fmt.Printf("REPLAY-CONFIRMED decode error: replies written to the client=%d, stream cleaned=%d, local reply stored but pending=%v: the client gets no answer and the stream is never released\n", replies, cleaned, s.directResponse)
+		return
+	}
+	fmt.Printf("REPLAY-NOT-REPRODUCED one reply (code %d), stream cleaned\n", s.requestInfo.ResponseCode())
+}
+`
+			out, _ := runOverlayTest("pkg/proxy", src, "^TestGovcReplay$")
+			return outcomeFromOutput(src, out)
+		},
+	})
+}
+
+func init() {
+	harnesses = append(harnesses, &harness{
+		name:      "effective-timeout replay (zero / negative / absent global timeout sources)",
+		modelFree: true,
+		match: func(o *Obligation) bool {
+			return strings.HasSuffix(o.Func, "proxy.parseProxyTimeout")
+		},
+		run: func(eng *Engine, o *Obligation) *ReplayOutcome {
+			src := `package proxy
+
+import (
+	"context"
+	"fmt"
+	"testing"
+
+	"mosn.io/mosn/pkg/network"
+	"mosn.io/mosn/pkg/protocol"
+	"mosn.io/mosn/pkg/types"
+	"mosn.io/pkg/variable"
+)
+
+// The failed obligation says: the effective global timeout computed for a request is not what the contract
+// states (in particular: not positive, so no timer bounds the request). Replay: timeout sources that are zero,
+// negative or absent; the request must end up with a positive global timeout and an armed timer.
+func TestGovcReplay(t *testing.T) {
+	bad := 0
+	for _, v := range []string{"-1", "-60000", "0", ""} {
+		ctx := variable.NewVariableContext(context.Background())
+		s := &downStream{context: ctx, requestInfo: &network.RequestInfo{}}
+		s.upstreamRequest = &upstreamRequest{downStream: s}
+		headers := protocol.CommonHeader{}
+		if v != "" {
+			headers[types.HeaderGlobalTimeout] = v
+		}
+		parseProxyTimeout(ctx, &s.timeout, nil, headers)
+		s.onUpstreamRequestSent()
+		armed := s.responseTimer != nil
+		s.cleanUp()
+		if s.timeout.GlobalTimeout <= 0 || !armed {
+			bad++
+			fmt.Printf("REPLAY-CONFIRMED request header %s: %q gives GlobalTimeout=%v TryTimeout=%v, global timer armed=%v: an unanswered request is never completed\n", types.HeaderGlobalTimeout, v, s.timeout.GlobalTimeout, s.timeout.TryTimeout, armed)
+		}
+	}
+	if bad == 0 {
+		fmt.Println("REPLAY-NOT-REPRODUCED every source gives a positive global timeout and an armed timer")
+	}
+}
+`
+			out, _ := runOverlayTest("pkg/proxy", src, "^TestGovcReplay$")
+			return outcomeFromOutput(src, out)
+		},
+	})
+}
+
+func init() {
+	harnesses = append(harnesses, &harness{
+		name:      "default virtual host replay (requests without a Host / with a bare IPv6 literal, default + one named virtual host)",
+		modelFree: true,
+		match: func(o *Obligation) bool {
+			return strings.HasSuffix(o.Func, "router.(*routersImpl).findVirtualHost") || strings.HasSuffix(o.Func, "router.(*routersImpl).findVirtualHostIndex")
+		},
+		run: func(eng *Engine, o *Obligation) *ReplayOutcome {
+			src := `package router
+
+import (
+	"context"
+	"fmt"
+	"testing"
+
+	v2 "mosn.io/mosn/pkg/config/v2"
+	"mosn.io/mosn/pkg/protocol"
+	"mosn.io/mosn/pkg/types"
+	"mosn.io/pkg/variable"
+)
+
+func govcRoute(cluster string) v2.Router {
+	return v2.Router{RouterConfig: v2.RouterConfig{Match: v2.RouterMatch{Prefix: "/"}, Route: v2.RouteAction{RouterActionConfig: v2.RouterActionConfig{ClusterName: cluster}}}}
+}
+
+// The failed obligation says: a request can end up with no virtual host although a default '*' virtual host is
+// configured. Replay: default + one named virtual host; requests without a Host, and with a Host that is not a valid
+// host[:port] (bare IPv6 literals), must be served by the default virtual host.
+func TestGovcReplay(t *testing.T) {
+	routers, err := NewRouters(&v2.RouterConfiguration{
+		VirtualHosts: []v2.VirtualHost{
+			{Name: "default", Domains: []string{"*"}, Routers: []v2.Router{govcRoute("default")}},
+			{Name: "other", Domains: []string{"www.other.com"}, Routers: []v2.Router{govcRoute("other")}},
+		},
+	})
+	if err != nil {
+		fmt.Println("REPLAY-INCONCLUSIVE", err)
+		return
+	}
+	bad := 0
+	for _, host := range []string{"", "::1", "fe80::1%eth0", "unknown.example.com"} {
+		ctx := variable.NewVariableContext(context.Background())
+		if host != "" {
+			variable.SetString(ctx, types.VarHost, host)
+		}
+		variable.SetString(ctx, types.VarPath, "/")
+		rt := routers.MatchRoute(ctx, protocol.CommonHeader(map[string]string{}))
+		if rt == nil || rt.RouteRule().ClusterName(ctx) != "default" {
+			bad++
+			fmt.Printf("REPLAY-CONFIRMED Host %q: no route although the default '*' virtual host is configured\n", host)
+		}
+	}
+	if bad == 0 {
+		fmt.Println("REPLAY-NOT-REPRODUCED every such request is served by the default virtual host")
+	}
+}
+`
+			out, _ := runOverlayTest("pkg/router", src, "^TestGovcReplay$")
+			return outcomeFromOutput(src, out)
+		},
+	})
+}
+
+func init() {
+	harnesses = append(harnesses, &harness{
+		name:      "retry budget replay (real OnReceive, num_retries = 1, every try fails to connect)",
+		modelFree: true,
+		match: func(o *Obligation) bool {
+			return strings.HasSuffix(o.Func, "proxy.newRetryState")
+		},
+		run: func(eng *Engine, o *Obligation) *ReplayOutcome {
+			src := `package proxy
+
+import (
+	"context"
+	"fmt"
+	"sync/atomic"
+	"testing"
+	"time"
+
+	"mosn.io/api"
+	v2 "mosn.io/mosn/pkg/config/v2"
+	"mosn.io/mosn/pkg/network"
+	"mosn.io/mosn/pkg/protocol"
+	"mosn.io/mosn/pkg/router"
+	"mosn.io/mosn/pkg/types"
+	"mosn.io/mosn/pkg/upstream/cluster"
+	"mosn.io/pkg/variable"
+)
+
+// ---- fakes (all names prefixed with zzDemo to avoid clashes) ----
+
+type zzDemoRetryPolicy struct{}
+
+func (zzDemoRetryPolicy) RetryOn() bool                  { return false } // default policy
+func (zzDemoRetryPolicy) TryTimeout() time.Duration      { return 0 }     // no per-try timeout (default)
+func (zzDemoRetryPolicy) NumRetries() uint32             { return 1 }
+func (zzDemoRetryPolicy) RetryableStatusCodes() []uint32 { return nil }
+
+type zzDemoPolicy struct{ api.Policy }
+
+func (zzDemoPolicy) RetryPolicy() api.RetryPolicy { return zzDemoRetryPolicy{} }
+
+type zzDemoRouteRule struct{ api.RouteRule }
+
+func (zzDemoRouteRule) ClusterName(context.Context) string { return "zz_demo" }
+func (zzDemoRouteRule) UpstreamProtocol() string           { return "" }
+func (zzDemoRouteRule) GlobalTimeout() time.Duration       { return 300 * time.Millisecond }
+func (zzDemoRouteRule) Policy() api.Policy                 { return zzDemoPolicy{} }
+func (zzDemoRouteRule) FinalizeRequestHeaders(context.Context, api.HeaderMap, api.RequestInfo) {
+}
+func (zzDemoRouteRule) FinalizeResponseHeaders(context.Context, api.HeaderMap, api.RequestInfo) {
+}
+
+// upstream stream that never produces any event by itself
+type zzDemoStream struct{ resets int32 }
+
+func (s *zzDemoStream) ID() uint64                                   { return 1 }
+func (s *zzDemoStream) AddEventListener(types.StreamEventListener)    {}
+func (s *zzDemoStream) RemoveEventListener(types.StreamEventListener) {}
+func (s *zzDemoStream) ResetStream(types.StreamResetReason)           { atomic.AddInt32(&s.resets, 1) }
+func (s *zzDemoStream) DestroyStream()                                {}
+
+// sender used both as the (black hole) upstream request sender and as the downstream response sender
+type zzDemoSender struct {
+	stream      zzDemoStream
+	headersSent int32
+	dataSent    int32
+	lastHeaders atomic.Value
+}
+
+func (s *zzDemoSender) AppendHeaders(_ context.Context, h api.HeaderMap, _ bool) error {
+	atomic.AddInt32(&s.headersSent, 1)
+	return nil
+}
+func (s *zzDemoSender) AppendData(context.Context, types.IoBuffer, bool) error {
+	atomic.AddInt32(&s.dataSent, 1)
+	return nil
+}
+func (s *zzDemoSender) AppendTrailers(context.Context, api.HeaderMap) error { return nil }
+func (s *zzDemoSender) GetStream() types.Stream                              { return &s.stream }
+
+// connection pool: either refuses (connection failure) or hands out a stream to a black hole
+type zzDemoPool struct {
+	types.ConnectionPool
+	host     types.Host
+	fail     bool
+	upstream *zzDemoSender
+	streams  int32
+}
+
+func (p *zzDemoPool) Host() types.Host { return p.host }
+func (p *zzDemoPool) NewStream(context.Context, types.StreamReceiveListener) (types.Host, types.StreamSender, types.PoolFailureReason) {
+	atomic.AddInt32(&p.streams, 1)
+	if p.fail {
+		return p.host, nil, types.ConnectionFailure
+	}
+	return p.host, p.upstream, ""
+}
+
+type zzDemoClusterManager struct {
+	types.ClusterManager
+	pool *zzDemoPool
+}
+
+func (m *zzDemoClusterManager) ConnPoolForCluster(types.LoadBalancerContext, types.ClusterSnapshot, api.ProtocolName) (types.ConnectionPool, types.Host) {
+	return m.pool, m.pool.host
+}
+
+
+type zzDemoRoute struct{ api.Route }
+
+func (zzDemoRoute) RouteRule() api.RouteRule                   { return &zzDemoRouteRule{} }
+func (zzDemoRoute) DirectResponseRule() api.DirectResponseRule { return nil }
+func (zzDemoRoute) RedirectRule() api.RedirectRule             { return nil }
+
+type zzDemoSnapshot struct {
+	types.ClusterSnapshot
+	info types.ClusterInfo
+}
+
+func (s *zzDemoSnapshot) ClusterInfo() types.ClusterInfo { return s.info }
+
+type zzDemoHandler struct{ snap types.ClusterSnapshot }
+
+func (h *zzDemoHandler) IsAvailable(context.Context, types.ClusterManager) (types.ClusterSnapshot, types.HandlerStatus) {
+	return h.snap, types.HandlerAvailable
+}
+func (h *zzDemoHandler) Route() api.Route { return zzDemoRoute{} }
+
+type zzDemoRouters struct{ types.Routers }
+type zzDemoRouterWrapper struct{ types.RouterWrapper }
+
+func (zzDemoRouterWrapper) GetRouters() types.Routers { return zzDemoRouters{} }
+
+type zzDemoServerConn struct{ types.ServerStreamConnection }
+
+func (zzDemoServerConn) EnableWorkerPool() bool      { return false } // the request is served on the calling goroutine
+func (zzDemoServerConn) Protocol() api.ProtocolName { return "Http1" }
+
+// The failed obligation says: the retry budget of a request is not the configured number of retries. Replay on the
+// real OnReceive: retry policy with num_retries = 1, every try fails to connect. The number of upstream attempts must
+// not exceed one plus the configured number of retries (2).
+func TestGovcReplay(t *testing.T) {
+	ctx := variable.NewVariableContext(context.Background())
+	info := cluster.NewClusterInfo(v2.Cluster{Name: "zz_demo", LbType: v2.LB_RANDOM})
+	host := cluster.NewSimpleHost(v2.Host{HostConfig: v2.HostConfig{Address: "127.0.0.1:1"}}, info)
+	failPool := &zzDemoPool{host: host, fail: true}
+	downstreamSender := &zzDemoSender{}
+	snap := &zzDemoSnapshot{info: info}
+	s := &downStream{
+		ID:             1,
+		context:        ctx,
+		responseSender: downstreamSender,
+		requestInfo:    &network.RequestInfo{},
+		notify:         make(chan struct{}, 1),
+		proxy: &proxy{
+			config:           &v2.Proxy{DownstreamProtocol: "Http1", UpstreamProtocol: "Http1"},
+			clusterManager:   &zzDemoClusterManager{pool: failPool},
+			routersWrapper:   zzDemoRouterWrapper{},
+			serverStreamConn: zzDemoServerConn{},
+			routeHandlerFactory: router.MakeHandlerFunc(func(context.Context, api.HeaderMap, types.Routers) types.RouteHandler {
+				return &zzDemoHandler{snap: snap}
+			}),
+			stats:         globalStats,
+			listenerStats: newListenerStats("zz_demo"),
+		},
+	}
+	s.initStreamFilterChain()
+	done := make(chan struct{})
+	go func() {
+		defer close(done)
+		s.OnReceive(ctx, protocol.CommonHeader{}, nil, nil)
+	}()
+	select {
+	case <-done:
+	case <-time.After(5 * time.Second):
+		fmt.Println("REPLAY-INCONCLUSIVE OnReceive still running after 5s")
+		s.OnResetStream(types.StreamConnectionTermination)
+		<-done
+		return
+	}
+	tries := atomic.LoadInt32(&failPool.streams)
+	if tries > 2 {
+		fmt.Printf("REPLAY-CONFIRMED num_retries = 1, every try fails to connect: %d upstream attempts (at most 2 allowed by the policy)\n", tries)
+		return
+	}
+	fmt.Printf("REPLAY-NOT-REPRODUCED upstream attempts=%d replies=%d\n", tries, atomic.LoadInt32(&downstreamSender.headersSent))
+}
+`
+			out, _ := runOverlayTest("pkg/proxy", src, "^TestGovcReplay$")
+			return outcomeFromOutput(src, out)
+		},
+	})
+}
